@@ -460,3 +460,21 @@ package collection
 //@ func newKeyLru
 //@   prop C17
 //@   ensures [empty-lru] result != nil && fresh(result) && result.limit == limit && result.onEvict == onEvict && result.elements != nil && result.evicts != nil && forallk(s, string, !has(result.elements, s))
+
+// ---------------- rolling window construction (C09) ----------------
+// A new window has `size` distinct empty buckets, starts at offset 0 "now", with the given bucket interval.
+//@ func newWindow
+//@   prop C09
+//@   requires size >= 1
+//@   loop 1 invariant 0 <= i && i <= size && len(buckets) == size && fresh(buckets) && forall(j, 0, i, buckets[j] != nil && buckets[j].Sum == 0.0 && buckets[j].Count == 0)
+//@   ensures [empty-buckets] result != nil && result.size == size && len(result.buckets) == size && forall(j, 0, size, result.buckets[j] != nil && result.buckets[j].Sum == 0.0 && result.buckets[j].Count == 0)
+//@ func NewRollingWindow
+//@   prop C09, C01
+//@   opaque newWindow
+//@   loop 1 invariant -1 <= rangeindex
+//@   ensures [starts-now-at-offset-zero] size >= 1 && len(opts) == 0 ==> result != nil && result.size == size && result.interval == interval && result.offset == 0 && result.lastTime == ret(timex.Now) && result.win == ret(newWindow) && calls(newWindow, size) == 1 && !result.ignoreCurrent
+//@   panic-ensures [size-must-be-positive] size < 1
+//@ func IgnoreCurrentBucket$1
+//@   prop C09
+//@   requires rw != nil
+//@   ensures rw.ignoreCurrent
